@@ -182,3 +182,37 @@ Theorem gen_initmix_mix_coefficients : forall m m1 prev c next,
    L_v13_Add_arg1_1 E * prev + L_v13_Add_arg1_3 E * c + L_v13_Add_arg1_2 E * next).
 Proof. exact GenTie.gen_mix_coefficients. Qed.
 Print Assumptions gen_initmix_mix_coefficients.
+
+(* ---------------------------------------------------------------------------------------------
+   Multicomponent diffusion: bookkeeping (the species fluxes of find_J are arbitrary rationals) *)
+From IPV.C11 Require Import Mcd McdProofs.
+From IPV.Gen Require Import Gen_C11_mcd.
+
+(* partial: explicit branch of fill_m_s and step 3 of multi_D only (no interlayer, surface, implicit
+   branch); for ANY fluxes with tot1 = tot2 (as find_J sets them) what leaves cell i enters cell j,
+   for every element b (all its redox states together) *)
+Theorem mcd_flux_antisymmetric_partial : forall (b : string) (js : list jflux) (tI tJ : totals),
+  Forall (fun f => j_tot1 f == j_tot2 f /\ Forall (fun ec => base (fst ec) = fst ec) (j_elts f)) js ->
+  fsum b (book_out (fill_m_s js) tI) + fsum b (book_in (fill_m_s js) tJ) == fsum b tI + fsum b tJ.
+Proof. exact McdProofs.mcd_exchange_conserves. Qed.
+Print Assumptions mcd_flux_antisymmetric_partial.
+
+(* the negative-total repair with the whole-name test never moves mass between elements: the total of
+   every element changes exactly by the non-negative amounts added to that element *)
+Theorem mcd_repair_conserves_elements : forall (b : string) (t : totals),
+  fsum b (fst (repair same_element t)) == fsum b t + asum b (snd (repair same_element t)) /\
+  Forall (fun e => 0 <= snd e) (snd (repair same_element t)).
+Proof. exact McdProofs.repair_conserves_elements. Qed.
+Print Assumptions mcd_repair_conserves_elements.
+
+(* documentation of the defect repaired by commit 8a017ddf: with the prefix test a Ca deficit is taken out of C *)
+Theorem mcd_prefix_test_refuted :
+  let t := [("C"%string, 1); ("Ca"%string, - (1 # 2))] in
+  snd (repair same_prefix t) = [] /\ ~ fsum "C" (fst (repair same_prefix t)) == fsum "C" t.
+Proof. exact McdProofs.prefix_test_moves_mass_between_elements. Qed.
+Print Assumptions mcd_prefix_test_refuted.
+
+(* T-gen: the name tests in the current source of multi_D are the ones modelled by Mcd.book / Mcd.same_element *)
+Theorem gen_mcd_name_tests : Gen_C11_mcd.name_tests = GenTie.expected_name_tests.
+Proof. exact GenTie.name_tests_ok. Qed.
+Print Assumptions gen_mcd_name_tests.
